@@ -1174,3 +1174,155 @@ func ruleDialHandshakeBounded(c *Ctx, p *Prog, rule string) {
 		c.Unk(rule, "dial:handshake-bounded", p, 0, "no websocket dial found in the bridge packages")
 	}
 }
+
+// ruleNoResponseReplay (C10.B): the agent keeps no response headers across requests. The
+// session writer adds `Set-Cookie: <session>` for a client that presented none and strips
+// the backend's cookies — per response. A structure that stores a header (or a whole
+// response) in a cache, map or package variable and replays it hands one client's session
+// cookie to every later client of that URL.
+func ruleNoResponseReplay(c *Ctx, p *Prog, rule string, pkgs ...string) {
+	holdsHeader := func(t types.Type) string {
+		seen := map[types.Type]bool{}
+		var walk func(t types.Type, d int) string
+		walk = func(t types.Type, d int) string {
+			if t == nil || seen[t] || d > 4 {
+				return ""
+			}
+			seen[t] = true
+			switch NamedType(t) {
+			case "net/http.Header":
+				return "an http.Header"
+			case "net/http.Response":
+				return "an *http.Response"
+			case "net/http.Cookie":
+				return "cookies"
+			}
+			switch u := t.Underlying().(type) {
+			case *types.Pointer:
+				return walk(u.Elem(), d+1)
+			case *types.Slice:
+				return walk(u.Elem(), d+1)
+			case *types.Struct:
+				if !IsNewType(t) {
+					return "" // pinned types are judged by the rules written for them
+				}
+				for k := 0; k < u.NumFields(); k++ {
+					if w := walk(u.Field(k).Type(), d+1); w != "" {
+						return w
+					}
+				}
+			}
+			return ""
+		}
+		return walk(t, 0)
+	}
+	n := 0
+	bad := ""
+	for _, pk := range pkgs {
+		for _, fn := range p.AllFuncsIn(pk) {
+			EachInstrRaw(fn, func(i ssa.Instruction) {
+				var stored ssa.Value
+				switch x := i.(type) {
+				case *ssa.Call:
+					switch CalleeName(x.Common()) {
+					case "(*github.com/golang/groupcache/lru.Cache).Add":
+						stored = x.Call.Args[2]
+					case "(*sync.Map).Store", "(*sync.Map).LoadOrStore", "(*sync.Map).Swap":
+						stored = x.Call.Args[2]
+					default:
+						return
+					}
+				case *ssa.MapUpdate:
+					stored = x.Value
+				case *ssa.Store:
+					if _, isG := x.Addr.(*ssa.Global); !isG {
+						return
+					}
+					stored = x.Val
+				default:
+					return
+				}
+				n++
+				v := stored
+				if mi, isMI := v.(*ssa.MakeInterface); isMI {
+					v = mi.X
+				}
+				if NamedType(v.Type()) == "net/http.Header" {
+					return // header maps themselves (w.Header()[k] = v) are per response
+				}
+				if w := holdsHeader(v.Type()); w != "" {
+					bad = "a value holding " + w + " is kept across requests at " + p.Pos(i.Pos()) + " (in " + FuncName(fn) + ")"
+				}
+			})
+		}
+	}
+	c.Check(rule, "agent:no-response-kept-across-requests", p, 0, bad == "" && n > 0, fmt.Sprintf("no response header, cookie or response object is stored in a cache, map or package variable of the agent (%d stores inspected)", n), bad+": a replayed response carries the Set-Cookie the session writer issued for the first client, so later clients share that session (and its backend cookies)")
+}
+
+// ruleRecordingDoesNotWait: recording a response code (WriteResponseCodeMetric
+// and everything it runs synchronously) performs no blocking channel
+// operation and waits for no other goroutine. Every shim endpoint and every
+// proxied response calls it before the handler returns; a send on a bounded
+// channel that the exporting goroutine drains blocks every request once the
+// exporter is stuck in an RPC.
+func ruleRecordingDoesNotWait(c *Ctx, p *Prog, rule string) {
+	f := c.need(p, rule, "agent/metrics.(*MetricHandler).WriteResponseCodeMetric")
+	if f == nil {
+		return
+	}
+	seen := map[*ssa.Function]bool{f: true}
+	q := []*ssa.Function{f}
+	bad := ""
+	n := 0
+	for len(q) > 0 {
+		fn := q[0]
+		q = q[1:]
+		n++
+		EachInstrRaw(fn, func(i ssa.Instruction) {
+			switch x := i.(type) {
+			case *ssa.Go:
+				return
+			case *ssa.Send:
+				bad = "channel send at " + p.Pos(x.Pos())
+			case *ssa.Select:
+				if x.Blocking {
+					timed := false
+					for _, st := range x.States {
+						if st.Dir == types.RecvOnly && isTimerChan(st.Chan) {
+							timed = true
+						}
+					}
+					if !timed {
+						bad = "select without default at " + p.Pos(x.Pos())
+					}
+				}
+			case *ssa.UnOp:
+				if x.Op == token.ARROW && !isTimerChan(x.X) {
+					bad = "channel receive at " + p.Pos(x.Pos())
+				}
+			case *ssa.MakeClosure:
+				onlyGo := true
+				for _, r := range *x.Referrers() {
+					if _, isGo := r.(*ssa.Go); !isGo {
+						onlyGo = false
+					}
+				}
+				if g := x.Fn.(*ssa.Function); !onlyGo && !seen[g] {
+					seen[g] = true
+					q = append(q, g)
+				}
+			}
+			if cc := CallOf(i); cc != nil {
+				switch CalleeName(cc) {
+				case "(*sync.WaitGroup).Wait", "(*sync.Cond).Wait":
+					bad = CalleeName(cc) + " at " + p.Pos(i.Pos())
+				}
+				if g := StaticFunc(cc); g != nil && p.IsModFunc(g) && len(g.Blocks) > 0 && !seen[g] {
+					seen[g] = true
+					q = append(q, g)
+				}
+			}
+		})
+	}
+	c.Check(rule, "metrics:recording-does-not-wait", p, f.Pos(), bad == "", fmt.Sprintf("%d function(s) run synchronously by WriteResponseCodeMetric: no channel send/receive, blocking select or wait for another goroutine", n), "WriteResponseCodeMetric, which every response path calls before the handler returns, waits for another goroutine ("+bad+"): once the exporter is busy or stuck in an RPC and the channel is full, every request of the agent hangs without an answer")
+}
